@@ -571,6 +571,8 @@ class Evaluator:
 
     def assign(self, tgt, v, st, stmt, quiet=False, aug=None):
         if isinstance(tgt, ast.Name):
+            if aug is None:
+                aug = _as_increment(st.locs.get(tgt.id), v)
             st.locs[tgt.id] = v
             if not quiet:
                 self.emit("local", stmt, name=tgt.id, value=v, aug=aug)
@@ -622,6 +624,8 @@ class Evaluator:
                 # mark the stores performed inside with the property name
                 return
         old = st.attrs.get(field)
+        if aug is None:
+            aug = _as_increment(old if old is not None else atom(("attr", field)), v)
         st.attrs[field] = v
         if self.attr_writes is not None:
             self.attr_writes.add(field)
@@ -656,6 +660,11 @@ class Evaluator:
             field = self.prog.backing_field(self.recv, name) or name
             old = self.load_attr(name, st, stmt, quiet=True)
             p = tuple(x for x in path if x[0] != "attr0")
+            if aug is None and how == "setitem" and len(p) >= 1 and all(x[0] == "item" for x in p):
+                elem = old
+                for x in p:
+                    elem = self.mk_sub(elem, x[1])
+                aug = _as_increment(elem, v)
             new = self._apply_path(old, p, how, v)
             st.attrs[field] = new
             if self.attr_writes is not None:
@@ -666,6 +675,11 @@ class Evaluator:
             old = st.locs.get(name)
             if old is None:
                 old = self.load_name(name, st, stmt)
+            if aug is None and how == "setitem" and path and all(x[0] in ("item", "attr") for x in path):
+                elem = old
+                for x in path:
+                    elem = self.mk_sub(elem, x[1]) if x[0] == "item" else self.mk_getattr(elem, x[1])
+                aug = _as_increment(elem, v)
             new = self._apply_path(old, tuple(path), how, v)
             st.locs[name] = new
             if self.local_writes is not None:
@@ -685,7 +699,13 @@ class Evaluator:
         old = self.ev(load, st)
         rhs = self.ev(s.value, st)
         v = self.binop(type(s.op), old, rhs, s)
-        self.assign(tgt, v, st, s, aug=(type(s.op).__name__, rhs))
+        if isinstance(s.op, ast.Add):
+            aug = ("Add", rhs)
+        elif isinstance(s.op, ast.Sub):
+            aug = ("Add", -rhs)
+        else:
+            aug = (type(s.op).__name__, rhs)
+        self.assign(tgt, v, st, s, aug=aug)
 
     # ---------------------------------------------------------- expressions
     def ev(self, e, st):
@@ -877,7 +897,8 @@ class Evaluator:
         if isinstance(e.op, ast.UAdd):
             return v
         if isinstance(e.op, ast.Not):
-            return T.mk_not(v)
+            r = T.mk_not(v)
+            return r if T.is_pure_const(r) else r.with_tree(("not", v))
         return atom(("invert", v))
 
     def ev_BoolOp(self, e, st):
@@ -1328,6 +1349,21 @@ def _local_names(fi):
             stack.extend(ast.iter_child_nodes(n))
         _LOCALS[fi.node] = r
     return r
+
+
+def _as_increment(old, v):
+    """x = x + d written as a plain assignment: report it like x += d (d must not depend on x's old value)."""
+    if old is None or not isinstance(old, R) or not isinstance(v, R):
+        return None
+    oa = old.single_atom()
+    if oa is None or oa[0] in ("const", "undef") or old.is_const():
+        return None
+    d = v - old
+    if T.mentions(d, lambda a: a == oa):
+        return None
+    if not d.num:
+        return None
+    return ("Add", d)
 
 
 def _kw(kwargs):
